@@ -135,6 +135,31 @@ Verdict(t, e) ==
               (IF Unsigned(RunGates(grp, e.out.gates)) = Unsigned(GS(GOf(e.st.n, e.out), e.st.n))
                THEN <<"StateToGraphOK", "sign-only">> ELSE <<"StateToGraphOK", e.via>>)
          ELSE <<"ok", "">>
+    [] e.fn = "lc_states" ->
+         \* lc_check on two stabilizer STATES given as tableaux (signs, local Cliffords, any generating set): e.st1 is a
+         \* local-Clifford image of |base>, e.st2 of |g2> (both facts re-checked here); the answer must be yes exactly
+         \* when base and g2 are LC equivalent, and on yes the returned gates must map state 1 onto state 2 exactly
+         LET G2 == FromEdges(n, e.g2)
+             c1 == IF e.st1.kind = "T" THEN TClause(e.st1) ELSE SClause(e.st1)
+             c2 == IF e.st2.kind = "T" THEN TClause(e.st2) ELSE SClause(e.st2)
+             grp1 == IF e.st1.kind = "T" THEN TGroup(e.st1) ELSE SGroup(e.st1)
+             grp2 == IF e.st2.kind = "T" THEN TGroup(e.st2) ELSE SGroup(e.st2) IN
+         IF c1 # "ok" \/ c2 # "ok" THEN <<"InputInvalid", e.via>>
+         ELSE IF ~GatesOK(e.pre1, n) \/ ~GatesOK(e.pre2, n) THEN <<"HarnessGateList", e.via>>
+         ELSE IF RunGates(GS(G1, n), e.pre1) # grp1 \/ RunGates(GS(G2, n), e.pre2) # grp2 THEN <<"HarnessStateInvalid", e.via>>
+         ELSE IF e.out.err # "" THEN <<"Raised", e.via>>
+         ELSE IF e.out.yes /\ G2 \notin orb THEN <<"Soundness", e.via>>
+         ELSE IF ~e.out.yes /\ G2 \in orb THEN
+              \* cause: the graph pair the decision procedure was really run on (e.ga / e.dim: graph of state 1 as the
+              \* library converts it, dimension of the linear solution space) - the known incompleteness C09-K1
+              <<"Completeness", IF EdgesWellFormed(n, e.ga) /\ ~Connected(FromEdges(n, e.ga), n) /\ e.dim >= 5
+                                THEN "disconnected-first-graph:solution-space-dim>=5" ELSE e.via>>
+         ELSE IF ~e.out.yes THEN <<"ok", "">>
+         ELSE IF ~GatesOK(e.out.gates, n) THEN <<"GateListWellFormed", e.via>>
+         ELSE IF RunGates(grp1, e.out.gates) # grp2 THEN
+              (IF Unsigned(RunGates(grp1, e.out.gates)) = Unsigned(grp2)
+               THEN <<"CliffordsOK", "sign-only">> ELSE <<"CliffordsOK", e.via>>)
+         ELSE <<"ok", "">>
     [] e.fn = "alt_result" ->
          \* entries of an alternate-target result: [map, graph]; base = the target graph
          IF e.err # "" THEN <<"Raised", e.via>>
